@@ -631,3 +631,66 @@ def r_kp_decimals(cx):
           "anchor-missing: the decimals option is not consulted in kp transform",
           cx.where(f.term(bad[0])["span"]) if bad else cx.where(f.d["span"]))
     cx.count("R-KP-DECIMALS", "tests_of_decimals", n)
+
+
+# ---------------------------------------------------------------------------------------------------------------------
+# R-KP-DIMENSION (C20): the number of output columns
+
+@rule("R-KP-DIMENSION", ["C20"])
+def r_kp_dimension(cx):
+    """(a) transform() prints as many columns as `-D` asks for, and as many as the widest input line has when `-D` is
+    not given: the value the output `match` dispatches on is exactly `options.dimension.unwrap_or(<input width>)`, not a
+    clamped or otherwise adjusted version of it. (b) The input width is measured after the comment has been removed
+    from the line: the length folded into the running maximum is the length of the argument list with the comment cut
+    off (truncate / take_while), not of the raw split."""
+    import mir
+    f = kp_fn(cx, "transform")
+    n = 0
+    if f is not None:
+        for b in sorted(f.reachable()):
+            t = f.term(b)
+            if t["k"] != "switch" or len(t["targets"]) < 3:
+                continue
+            vals = {v for v, _ in t["targets"]}
+            if not {1, 2, 3} <= vals:
+                continue
+            n += 1
+            c = mir.strip_refs(f.operand(t["discr"], f.end_point(b)))
+            ok = c[0] == "call" and isinstance(c[1], str) and c[1].endswith("Option::<T>::unwrap_or") and len(c[2]) == 2 and \
+                mir.strip_refs(c[2][1])[0] == "arg" and mir.strip_refs(c[2][0])[0] == "proj"
+            cx.ob("R-KP-DIMENSION", "transform/output-dimension", ok,
+                  "the output match dispatches on options.dimension.unwrap_or(input width)" if ok else
+                  "kp transform: the number of output columns is not `-D` when given (else the input width) but an "
+                  "adjusted value: a requested dimension above (or below) the input width is not honoured",
+                  cx.where(t["span"]))
+    g = kp_fn(cx, "main")
+    m = 0
+    if g is not None:
+        for bb, t in g.calls():
+            c = g.callee(t) or ""
+            if not c.endswith("::max"):
+                continue
+            a = g.arg_terms(bb)
+            lens = [x for x in a if mir.strip_refs(x)[0] == "call" and isinstance(mir.strip_refs(x)[1], str) and
+                    mir.strip_refs(x)[1].endswith("::len")]
+            if not lens or not any(mir.strip_refs(x)[0] == "loopphi" for x in a):
+                continue
+            m += 1
+            v = mir.strip_refs(lens[0])[2][0]
+            cut = []
+
+            def vis(y):
+                if y[0] == "mod" and isinstance(y[2], tuple) and len(y[2]) > 1 and isinstance(y[2][1], str) and \
+                        y[2][1].rsplit("::", 1)[-1] in ("truncate", "drain", "retain", "split_off"):
+                    cut.append(1)
+                if y[0] == "call" and isinstance(y[1], str) and y[1].rsplit("::", 1)[-1] in ("take_while", "map_while"):
+                    cut.append(1)
+                return True
+            mir.walk(v, vis)
+            ok = bool(cut)
+            cx.ob("R-KP-DIMENSION", "main/input-width", ok,
+                  "the input width is the length of the argument list after the comment was cut off" if ok else
+                  "kp main: the width of an input line is measured before its trailing comment is removed: the words of "
+                  "the comment count as coordinate columns, and the whole batch is printed with more columns",
+                  cx.where(t["span"]))
+    cx.count("R-KP-DIMENSION", "dimension_sites", n + m)
